@@ -1143,30 +1143,30 @@ func RunSliceExpr(ctx *Task, expr *ast.SliceExpr) *errchain.PlError {
 	case ast.String:
 		str := obj.V.(string)
 		if stepInt > 0 {
-			result := ""
+			result := []byte{}
 			if startInt < 0 {
 				startInt = 0
 			}
 			for i := startInt; i < endInt && i < length; i += stepInt {
-				result += string(str[i])
+				result = append(result, str[i])
 				if stepInt >= length { // the next index is out of range; i += stepInt could overflow
 					break
 				}
 			}
-			ctx.Regs.ReturnAppend(V{result, ast.String})
+			ctx.Regs.ReturnAppend(V{string(result), ast.String})
 			return nil
 		} else {
-			result := ""
+			result := []byte{}
 			if startInt > length-1 {
 				startInt = length - 1
 			}
 			for i := startInt; i > endInt && i >= 0; i += stepInt {
-				result += string(str[i])
+				result = append(result, str[i])
 				if stepInt <= -length { // the next index is out of range; i += stepInt could overflow
 					break
 				}
 			}
-			ctx.Regs.ReturnAppend(V{result, ast.String})
+			ctx.Regs.ReturnAppend(V{string(result), ast.String})
 			return nil
 		}
 	default:
